@@ -3,7 +3,8 @@
 // a length, every buffer size, and every way the underlying reader chunks,
 // stalls or fails (all enumerated by the mc explorer; stalls and injected
 // errors are deviations with a budget of 2, chunk sizes are enumerated
-// completely).
+// completely), a size family (sizeFamily) and executions with several scanners
+// whose Scan calls interleave (multi.go).
 package main
 
 import (
@@ -39,6 +40,10 @@ type Case struct {
 	Chunk int    `json:"chunk,omitempty"`
 	EOFWD bool   `json:"eof_with_data,omitempty"`
 	Stall bool   `json:"stall_before_every_read,omitempty"`
+	// multi-scanner family (Scanner/Data are empty then): the unit, the
+	// policy-deviation bound of its explorer and the execution's choice vector
+	Multi []ScanSpec `json:"multi,omitempty"`
+	Bound int        `json:"bound,omitempty"`
 }
 
 // ---- size family: everything above has streams of at most 8 bytes and buffers
@@ -137,9 +142,11 @@ type chunkReader struct {
 	nData  int // reads that returned data
 	after  int // reads after an error was returned
 	// size family: a fixed chunking policy instead of explorer choices
-	fixed       int  // > 0: every read returns min(fixed, len(p), rest) bytes
-	eofWithData bool // the last data arrives together with io.EOF
-	stallEvery  bool // a 0-byte answer (0, nil) before every data-carrying read
+	fixed       int    // > 0: every read returns min(fixed, len(p), rest) bytes
+	eofWithData bool   // the last data arrives together with the end condition (io.EOF or endErr)
+	stallEvery  bool   // a 0-byte answer (0, nil) before every data-carrying read
+	endErr      error  // multi-scanner family: the stream ends with this error instead of io.EOF
+	onData      func() // multi-scanner family: called before a data-carrying read answer is written
 	stalled     bool
 	reads       int
 }
@@ -147,10 +154,20 @@ type chunkReader struct {
 func (r *chunkReader) Read(p []byte) (int, error) {
 	if r.fixed > 0 {
 		r.reads++
+		if r.err != nil {
+			// after the end (io.EOF is sticky; a scanner that was given a
+			// non-EOF error "ends the stream" and never asks again)
+			r.after++
+			return 0, io.EOF
+		}
+		end := error(io.EOF)
+		if r.endErr != nil {
+			end = r.endErr
+		}
 		rem := len(r.data) - r.pos
 		if rem == 0 {
-			r.err = io.EOF
-			return 0, io.EOF
+			r.err, r.errPos = end, r.pos
+			return 0, end
 		}
 		if r.stallEvery && !r.stalled && len(p) > 0 {
 			r.stalled = true
@@ -164,14 +181,17 @@ func (r *chunkReader) Read(p []byte) (int, error) {
 		if n > rem {
 			n = rem
 		}
+		if n > 0 && r.onData != nil {
+			r.onData()
+		}
 		copy(p, r.data[r.pos:r.pos+n])
 		r.pos += n
 		if n > 0 {
 			r.nData++
 		}
 		if r.pos == len(r.data) && r.eofWithData {
-			r.err = io.EOF
-			return n, io.EOF
+			r.err, r.errPos = end, r.pos
+			return n, end
 		}
 		return n, nil
 	}
@@ -288,17 +308,61 @@ func runOne(ex *mc.Explorer, sc string, buf int, data []byte) (res result) {
 	return runWith(&chunkReader{ex: ex, data: data}, sc, buf, data)
 }
 
-func runWith(r *chunkReader, sc string, buf int, data []byte) (res result) {
-	var s scanner
-	if sc == "immediate" {
-		s = readahead.NewImmediate(r, buf)
-	} else {
-		s = readahead.NewBuffered(r, buf)
+// scanRun is one scanner over one reader: the lines it handed out (the slices
+// themselves and a copy made at the moment of the return) and the error
+// callbacks it made.
+type scanRun struct {
+	sc       string
+	buf      int
+	data     []byte
+	r        *chunkReader
+	s        scanner
+	errCalls int
+	errSeen  error
+	got      [][]byte // the slices as handed out (held by the caller)
+	snap     [][]byte // their contents at the time of the return
+	ended    bool
+	family   string // "" (explorer-chunked), "size-family", "multi-scanner"
+}
+
+func newScanRun(r *chunkReader, sc string, buf int, data []byte) *scanRun {
+	x := &scanRun{sc: sc, buf: buf, data: data, r: r}
+	if r.fixed > 0 {
+		x.family = "size-family"
 	}
-	errCalls := 0
-	var errSeen error
-	s.OnError(func(e error) { errCalls++; errSeen = e })
-	var got, snap [][]byte
+	if sc == "immediate" {
+		x.s = readahead.NewImmediate(r, buf)
+	} else {
+		x.s = readahead.NewBuffered(r, buf)
+	}
+	x.s.OnError(func(e error) { x.errCalls++; x.errSeen = e })
+	return x
+}
+
+// scan asks for one more line and retains it; false when the scanner ended.
+func (x *scanRun) scan() bool {
+	if !x.s.Scan() {
+		x.ended = true
+		return false
+	}
+	b := x.s.Bytes()
+	x.got = append(x.got, b)
+	x.snap = append(x.snap, append([]byte{}, b...))
+	return true
+}
+
+func (x *scanRun) tooMany() (result, bool) {
+	if len(x.got) > len(x.data)+4 {
+		sig := "C04/" + x.sc + "/too-many-lines"
+		if x.family == "multi-scanner" {
+			sig += "/" + x.family
+		}
+		return result{sig: sig, detail: fmt.Sprintf("more than %d lines from %q", len(x.got), x.data), reads: x.r.log}, true
+	}
+	return result{}, false
+}
+
+func runWith(r *chunkReader, sc string, buf int, data []byte) (res result) {
 	defer func() {
 		if p := recover(); p != nil {
 			if d, ok := p.(mc.Divergence); ok {
@@ -307,16 +371,19 @@ func runWith(r *chunkReader, sc string, buf int, data []byte) (res result) {
 			res = result{sig: "C04/" + sc + "/panic", detail: fmt.Sprintf("panic: %v", p), reads: r.log}
 		}
 	}()
-	steps := 0
-	for s.Scan() {
-		b := s.Bytes()
-		got = append(got, b)
-		snap = append(snap, append([]byte{}, b...))
-		steps++
-		if steps > len(data)+4 {
-			return result{sig: "C04/" + sc + "/too-many-lines", detail: fmt.Sprintf("more than %d lines from %q", steps, data), reads: r.log}
+	x := newScanRun(r, sc, buf, data)
+	for x.scan() {
+		if res, bad := x.tooMany(); bad {
+			return res
 		}
 	}
+	return x.verdict()
+}
+
+// verdict applies the oracle to a scanner that has ended (Scan returned false).
+func (x *scanRun) verdict() (res result) {
+	r, sc, buf, data, s := x.r, x.sc, x.buf, x.data, x.s
+	got, snap := x.got, x.snap
 	// the stream the scanner was given: all bytes handed over before the
 	// error (or all of them)
 	delivered := data[:r.pos]
@@ -327,18 +394,23 @@ func runWith(r *chunkReader, sc string, buf int, data []byte) (res result) {
 	res.reads = r.log
 	res.nData = r.nData
 	res.lines = len(want)
-	if r.fixed > 0 {
-		res.outcome = fmt.Sprintf("size|%d|%d|%d", len(data), len(want), errCalls)
+	if x.family == "size-family" {
+		res.outcome = fmt.Sprintf("size|%d|%d|%d", len(data), len(want), x.errCalls)
 	} else {
-		res.outcome = fmt.Sprintf("%q|%d", want, errCalls)
+		res.outcome = fmt.Sprintf("%q|%d", want, x.errCalls)
 	}
 	bad := func(class, msg string) result {
-		if r.fixed > 0 {
+		if x.family == "size-family" {
 			return result{sig: "C04/" + sc + "/" + class + "/size-family", reads: r.log, nData: r.nData,
-				detail: fmt.Sprintf("%s\nscanner=%s buf=%d stream of %d bytes (see the case) read in chunks of %d, eof-with-data=%v\n%d lines wanted, %d returned\nonError calls=%d", msg, sc, buf, len(data), r.fixed, r.eofWithData, len(want), len(got), errCalls)}
+				detail: fmt.Sprintf("%s\nscanner=%s buf=%d stream of %d bytes (see the case) read in chunks of %d, eof-with-data=%v\n%d lines wanted, %d returned\nonError calls=%d", msg, sc, buf, len(data), r.fixed, r.eofWithData, len(want), len(got), x.errCalls)}
 		}
-		return result{sig: "C04/" + sc + "/" + class, reads: r.log, nData: r.nData,
-			detail: fmt.Sprintf("%s\nscanner=%s buf=%d stream=%q reads=%v\nwant lines %q\ngot at return %q\ngot after scan %q\nonError calls=%d", msg, sc, buf, delivered, r.log, want, snap, got, errCalls)}
+		sig, reads := "C04/"+sc+"/"+class, fmt.Sprint(r.log)
+		if x.family != "" {
+			sig += "/" + x.family
+			reads = fmt.Sprintf("chunks of at most %d bytes, end condition %s, together with the last data=%v", r.fixed, errName(r.err), r.eofWithData)
+		}
+		return result{sig: sig, reads: r.log, nData: r.nData,
+			detail: fmt.Sprintf("%s\nscanner=%s buf=%d stream=%q reads=%s\nwant lines %q\ngot at return %q\ngot after scan %q\nonError calls=%d", msg, sc, buf, delivered, reads, want, snap, got, x.errCalls)}
 	}
 	if len(snap) != len(want) {
 		return bad("wrong-lines", "number of lines differs from the specification")
@@ -357,10 +429,10 @@ func runWith(r *chunkReader, sc string, buf int, data []byte) (res result) {
 	if r.err != nil && r.err != io.EOF {
 		wantErr = 1
 	}
-	if errCalls != wantErr {
-		return bad("onerror-count", fmt.Sprintf("OnError called %d times, want %d", errCalls, wantErr))
+	if x.errCalls != wantErr {
+		return bad("onerror-count", fmt.Sprintf("OnError called %d times, want %d", x.errCalls, wantErr))
 	}
-	if wantErr == 1 && errSeen != r.err {
+	if wantErr == 1 && x.errSeen != r.err {
 		return bad("onerror-value", "OnError received a different error")
 	}
 	if r.err == nil {
@@ -373,8 +445,8 @@ func runWith(r *chunkReader, sc string, buf int, data []byte) (res result) {
 			return bad("scan-after-end", "Scan returned true after it had returned false")
 		}
 	}
-	if errCalls != wantErr {
-		return bad("onerror-count-after-end", fmt.Sprintf("OnError called %d times after Scan was asked again past the end, want %d", errCalls, wantErr))
+	if x.errCalls != wantErr {
+		return bad("onerror-count-after-end", fmt.Sprintf("OnError called %d times after Scan was asked again past the end, want %d", x.errCalls, wantErr))
 	}
 	return res
 }
@@ -418,6 +490,9 @@ func worker(w *runner.W) {
 		passes = []pass{{8, 7, 2}, {6, 6, 3}}
 	}
 	var caseNo int64
+	// the multi-scanner family first: it is the cheapest of the three and must
+	// not be the one a soft deadline on a loaded machine cuts off
+	multiFamily(w, &caseNo)
 	for _, ps := range passes {
 		alphabetStrings(ps.maxLen, func(_ int64, data []byte) bool {
 			for _, sc := range []string{"immediate", "buffered"} {
@@ -464,6 +539,10 @@ func replay(w *runner.W, raw json.RawMessage) {
 	if err := json.Unmarshal(raw, &c); err != nil {
 		panic(err)
 	}
+	if len(c.Multi) > 0 {
+		replayMulti(w, c)
+		return
+	}
 	if c.Shape != "" {
 		data := sizeStream(c.Shape, c.Len)
 		res := runWith(&chunkReader{data: data, fixed: c.Chunk, eofWithData: c.EOFWD, stallEvery: c.Stall}, c.Scanner, c.Buf, data)
@@ -486,10 +565,10 @@ func main() {
 		Properties: []string{"C04"},
 		Level:      "model_checking",
 		Rule: func(prop, tier string) string {
-			return "every byte string over {a,CR,LF} up to length 6 (quick) / 8 (thorough) x scanner {immediate, buffered} x buffer size 1..6/7 (buffered from 2) x every answer sequence of the underlying reader: all chunk sizes and data+EOF (free choices), up to 2 deviations (thorough: also 3 deviations for streams up to length 6) among 0-byte stalls and an injected non-EOF error (a plain error or io.ErrUnexpectedEOF) with 0..k bytes at any read, after which the reader would go on delivering the rest of the stream if asked; executed on the real scanners, lines retained and compared after the scan; plus a size family without explorer choices: 4 stream shapes (a line of L bytes then a short one; CR LF ending exactly at L then an unterminated rest of L bytes; L lines of 2 bytes; lines of growing length up to L bytes in total) for L = 0..70 and 2^k-1, 2^k, 2^k+1 (k = 7..17 quick / 18 thorough) x buffer sizes {16, 4096, 131072 = the production size} x reads of {everything asked for, 4096, 7, 1} bytes x {last data without io.EOF, with io.EOF, a 0-byte stall before every data-carrying read (the number of stalls grows with the stream)}; after the end Scan is asked three more times (no line, no second error report). non-trivial = at least 2 data-carrying reads and at least 1 line; every execution is a distinct (stream, buffer, answer sequence) triple"
+			return "every byte string over {a,CR,LF} up to length 6 (quick) / 8 (thorough) x scanner {immediate, buffered} x buffer size 1..6/7 (buffered from 2) x every answer sequence of the underlying reader: all chunk sizes and data+EOF (free choices), up to 2 deviations (thorough: also 3 deviations for streams up to length 6) among 0-byte stalls and an injected non-EOF error (a plain error or io.ErrUnexpectedEOF) with 0..k bytes at any read, after which the reader would go on delivering the rest of the stream if asked; executed on the real scanners, lines retained and compared after the scan; plus a size family without explorer choices: 4 stream shapes (a line of L bytes then a short one; CR LF ending exactly at L then an unterminated rest of L bytes; L lines of 2 bytes; lines of growing length up to L bytes in total) for L = 0..70 and 2^k-1, 2^k, 2^k+1 (k = 7..17 quick / 18 thorough) x buffer sizes {16, 4096, 131072 = the production size} x reads of {everything asked for, 4096, 7, 1} bytes x {last data without io.EOF, with io.EOF, a 0-byte stall before every data-carrying read (the number of stalls grows with the stream)}; after the end Scan is asked three more times (no line, no second error report); plus a multi-scanner family (what two scanners of one process can share - a package-level free list or scratch buffer - no execution with one scanner can show): 2 scanners (thorough: also 3) in one execution, kinds {immediate, buffered}^k x buffer sizes {2,3,4}^k x streams {every string over {letter, LF} up to length 3, CR LF, letter CR LF, letter CR}^k with the letter a/b/c naming the scanner (units in which no scanner can hand out a non-empty line are left out); scanner #0 is created first, after that every step is a free explorer choice among Scan of any scanner that has not ended and creation of the next scanner (all interleavings: one to its end then the other, alternating, the second created before or after the first ended); per scanner a free choice how its stream ends (io.EOF or an injected non-EOF error) and per execution up to 1 deviation (thorough: 2) among {the end condition together with the last data, 1-byte reads, both} of one scanner; oracle: the single-scanner oracle on every scanner once all have ended, every slice of every scanner compared with the copy made when it was handed out after all scanners ended and were asked past their end, and - because package-level state cannot be reset inside a process, and a caller may hold lines that long anyway - the slices of the preceding 32 executions of the unit compared again after every execution and all of the unit's at its end; thorough: the same with 2 deviations, 2 scanners x streams up to length 4 x buffer sizes {1,3,5} with 1 deviation, and 3 scanners x strings over {letter, LF} up to length 2 x buffer size 2 without deviation. non-trivial = at least 2 data-carrying reads and at least 1 line (multi-scanner executions: a read delivered data to one scanner while a non-empty line handed out by another scanner was held); every execution is a distinct (stream, buffer, answer sequence) triple resp. (unit, schedule, reader policies) triple"
 		},
 		Assumptions: func(string) []string {
-			return []string{"the reader obeys io.Reader (n <= len(p)); after an error it keeps returning that error", "byte values outside {a,CR,LF} behave like 'a' (the scanners only compare against LF and CR)"}
+			return []string{"the reader obeys io.Reader (n <= len(p)); after an error it keeps returning that error", "byte values outside {a,CR,LF} behave like 'a' (the scanners only compare against LF and CR)", "multi-scanner family: the scanners of one execution are driven from one goroutine, interleaved at Scan granularity (two scanners inside Scan at the same instant - a data race on shared state - is outside this family); a violation found through lines held from an earlier execution is replayed by re-running that execution alone and, if that shows nothing, the whole unit from its first execution in a fresh process"}
 		},
 		Worker:         worker,
 		Replay:         replay,
